@@ -228,7 +228,16 @@ _SERVER = []
 
 def pristine(f, toks, lenient, form):
     """the same request answered by harness/props/pristine.py (fresh child process, other hash seed)"""
-    return pristine_request({"f": f, "toks": list(toks), "lenient": lenient, "form": form})
+    # (the answer to a request is a function of the request: asked once per distinct request)
+    key = json.dumps([f, list(toks), lenient, form], sort_keys=True)
+    if key not in _PRISTINE_MEMO:
+        if len(_PRISTINE_MEMO) > 200000:
+            _PRISTINE_MEMO.clear()
+        _PRISTINE_MEMO[key] = pristine_request({"f": f, "toks": list(toks), "lenient": lenient, "form": form})
+    return _PRISTINE_MEMO[key]
+
+
+_PRISTINE_MEMO = {}
 
 
 def pristine_call(module, function, *args):
